@@ -236,6 +236,10 @@ def gen_workload(tape):
         a = tape.choice(H, "cut0")
         b = a + 1 + tape.choice(H - a, "cut1")
         w["period"] = [a * 3600 + 1800.5, b * 3600 + 1800.5]
+        if tape.flag("cut_on_boundary", 1, 3):
+            # period limits exactly on full hours: file starts/ends and the
+            # points snapped to round times lie on them
+            w["period"] = [a * 3600.0, b * 3600.0]
     else:
         w["period"] = [-3600.0, (2 * H + 8) * 3600.0]
     w["processes"] = tape.pick([2, 1, 3, 4, None], "procs")
